@@ -77,3 +77,19 @@ PROPS["C17"] = simple(
                "Sampled over a value grammar with all boundary values enumerated.",
     level_note="Trusted: the reference classifier in harness/verifchk/c17; time.Parse(RFC3339) and url.Parse serve as the reference parsers for timestamps and URLs (the statement fixes classification and faithfulness, not a grammar of its own).",
 )
+
+PROPS["C10"] = simple(
+    "verifchk/c10", "TestVerifC10", "exploration",
+    "page chains built as embedded JSON (root Collection/OrderedCollection + CollectionPage chain) whose elements are unique tags e-<page>-<idx>, "
+    "harvested through pub.NewCollectionFromObject with a tagging constructor. Enumerated: every layout of 1..4 (quick) / 1..5 (thorough) pages with "
+    "sizes 0..2 / 0..3, both kinds, 36+6 request-size patterns over sizes 0..6, start offsets {0,1,2,4}. PRNG: 1..9 pages, sizes 0..7, runs of up to 6 "
+    "empty pages, missing items key, single-value items, five kinds of broken next link, request sizes from {0,1,2,3,5,6,7,50}, start offsets 0..8; "
+    "remote/cyclic chains through the TLS simulator. Non-trivial: every case (each has at least one page); distinct = (layout, request sizes, start).",
+    shards=dict(quick=8, thorough=16),
+    floor=dict(evaluations=20000, distinct=5000, harvest_calls=20000),
+    technique="runtime monitor: history of delivered unique-tagged elements checked against the reference concatenation and the legitimate-cut rule",
+    level_text="Every delivered item identifies the page slot it came from, so the concatenation of successive Harvest results is checked linearly: it must be a prefix "
+               "of the reference sequence, end with the full sequence and a nil continuation, or be cut by one error item only where a page fails to load or at "
+               "least four consecutive empty pages follow. Small layouts are enumerated completely, larger ones sampled.",
+    level_note="Trusted: the reference walk in harness/verifchk/c10. A cut at >3 consecutive empty pages is treated as permitted, not required. Zero-size requests are allowed to make no progress.",
+)
